@@ -8,6 +8,7 @@ import Beeb.Spec.Info
 import Beeb.Model.Main
 import Beeb.Model.Basic
 import Beeb.Spec.FluxEnc
+import Driver.SpecOps
 import Std.Data.HashMap
 
 open Beeb Driver
@@ -261,6 +262,7 @@ def dispatch (st : DState) (line : String) : String :=
   | "trackdec" :: args => opTrackDec args
   | "trackenc" :: args => opTrackEnc args
   | "v3items" :: args => opV3Items args
+  | "spec" :: args => opSpec args
   | _ => "bad-op"
 
 /-- stateful ops: `file <hexpath> raw|gzbad|missing <host path of (inflated) content>`, `clearfiles` -/
